@@ -1151,6 +1151,13 @@ func (e *c15Env) probe() {
 		if gotHS && gotBlock && v.Has[e.blks[4].Hash()] {
 			c.Probe("honest_peer_served_after_attack")
 			e.logf("honest peer served after %.1fs", time.Since(start).Seconds())
+			// long after every deadline of the attack connections: nobody may still be waiting for a lock
+			// (a goroutine that deadlocked on a per-connection lock does not hurt other peers at once, but it is
+			// pinned for ever together with its connection, buffers and peer entry: resources out of proportion)
+			c.W.Sleep(5 * time.Minute)
+			if lw := c.W.LockWaiters(); len(lw) > 0 {
+				c.Fail("C15/stuck/lock-never-released", "five simulated minutes after the attack ended %d node task(s) still wait for a lock that nobody will ever release (deadlock): %v\n%s", len(lw), lw, e.trace())
+			}
 			return
 		}
 	}
